@@ -128,9 +128,23 @@ def streamChunks (cap : Nat) (writerChunks : List (List Nat)) : Option (List (Li
 inductive WK | utf8 | utf16 | other
   deriving DecidableEq, Repr
 
+/-- repairs of the serializer that may or may not be present in the working tree (each is read from the
+source by the translator: `Fixes.generated`); the model follows whichever variant is there -/
+structure Fixes where
+  normLiteral : Bool    -- writeNormalizedChar (comments, PIs) uses `m_writer.writeLiteral` (throws on an unrepresentable character)
+  cdataRef : Bool       -- writeCDATAChars leaves the section to write CR / NEL / LSEP / XML 1.1 restricted characters as references
+  rejectNonChar : Bool  -- `throwIfNotACharacter`: unpaired low surrogate, U+FFFE, U+FFFF, NUL are errors
+  utf16Pairs : Bool     -- XalanUTF16Writer::write(chars, start, length) validates and consumes surrogate pairs
+  deriving DecidableEq, Repr
+
+def Fixes.asWritten : Fixes := ⟨false, false, false, false⟩
+def Fixes.all : Fixes := ⟨true, true, true, true⟩
+def Fixes.generated : Fixes := ⟨fixNormLiteral, fixCdataRef, fixRejectNonChar, fixUtf16Pairs⟩
+
 structure Enc where
   kind : WK
   canEnc : Nat → Bool      -- XalanOutputStream::canTranscodeTo, used by the `other` writer only
+  fx : Fixes
 
 abbrev Out := Except Err (List Item)
 
@@ -226,7 +240,14 @@ def decodeHead (c : Nat) (rest : List Nat) : Except Err (Nat × Bool) :=
 functor (`throwing = false`) or the exception functor (`throwing = true`, used for names) -/
 def wCP (e : Enc) (throwing : Bool) (c : Nat) (rest : List Nat) : CP :=
   match e.kind with
-  | .utf16 => .ok ([.one c], false)
+  | .utf16 =>
+    if e.fx.utf16Pairs then do
+      -- isUTF16HighSurrogate / start + 1 >= length / decodeUTF16SurrogatePair (for its check only)
+      let (_, two) ← decodeHead c rest
+      match two, rest with
+      | true, l :: _ => pure ([.one c, .one l], true)      -- write(ch); write(chars[++start])
+      | _, _ => pure ([.one c], false)
+    else .ok ([.one c], false)
   | .utf8 => do
     let (v, two) ← decodeHead c rest
     let it ← utf8Scalar v
@@ -297,8 +318,17 @@ def writeDefaultAttributeEscape (ver : Ver) (e : Enc) (ch : Nat) : Out :=
   | some it => .ok it
   | none => if pForbidden ver ch then .error .forbidden else fNCR e ch
 
+/-- `throwIfNotACharacter(ch)` (present when `fx.rejectNonChar`) -/
+def notCharCheck (e : Enc) (c : Nat) : Except Err Unit :=
+  if e.fx.rejectNonChar then
+    if isLow c then .error .surrogate
+    else if c = 0 ∨ c ≥ 0xFFFE then .error .forbidden
+    else .ok ()
+  else .ok ()
+
 /-- `writeNormalizedCharBig(chars, start, length)` -/
-def writeNormalizedCharBig (ver : Ver) (e : Enc) (c : Nat) (rest : List Nat) : CP :=
+def writeNormalizedCharBig (ver : Ver) (e : Enc) (c : Nat) (rest : List Nat) : CP := do
+  notCharCheck e c
   if ver = .v11 ∧ c = 0x2028 then do
     let it ← fNCR e c
     pure (it, false)
@@ -345,7 +375,8 @@ def normLoop (ver : Ver) (e : Enc) : List Nat → Bool → Out
       pure (a ++ b)
     else if pCharRefForbidden ver c then .error .forbidden
     else do
-      let (it, two) ← wCP e false c rest
+      notCharCheck e c
+      let (it, two) ← wCP e e.fx.normLiteral c rest      -- m_writer.write / m_writer.writeLiteral
       let b ← normLoop ver e rest two
       pure (it ++ b)
 
@@ -376,7 +407,9 @@ def CDataCfg.generated : CDataCfg :=
 /-- `m_writer.writeCDATAChar(chars, i, length, outsideCDATA)`: items, next unit consumed, new flag -/
 def wCDATAChar (e : Enc) (c : Nat) (rest : List Nat) (outside : Bool) : Except Err (List Item × Bool × Bool) :=
   match e.kind with
-  | .utf16 => .ok ([.one c], false, outside)
+  | .utf16 => do
+    let (it, two) ← wCP e false c rest
+    pure (it, two, outside)
   | .utf8 => do
     let (it, two) ← wCP e false c rest
     pure (it, two, outside)
@@ -421,8 +454,16 @@ def cdataLoop (cfg : CDataCfg) (ver : Ver) (e : Enc) (length : Nat) :
         let a ← wNewline e
         let (b, o) ← cdataLoop cfg ver e length rest (i + 1) 0 outside
         pure (a ++ b, o)
+      else if e.fx.cdataRef = true ∧ (c = 13 ∨ (ver = .v11 ∧ (pCharRefForbidden ver c = true ∨ c = 0x85 ∨ c = 0x2028))) then do
+        -- leave the section for a character reference
+        let ncr ← fNCR e c
+        let pre := if outside then [] else wConst e (cdataClose e)
+        let post := if outside then [] else wConst e (cdataOpen e)
+        let (b, o) ← cdataLoop cfg ver e length rest (i + 1) 0 outside
+        pure (pre ++ ncr ++ post ++ b, o)
       else if pCharRefForbidden ver c then .error .forbidden
       else do
+        notCharCheck e c
         let (it, two, o1) ← wCDATAChar e c (rest.take (length - (i + 1))) outside
         let (b, o) ← cdataLoop cfg ver e length rest (i + 1) (if two then 1 else 0) o1
         pure (it ++ b, o)
